@@ -1,4 +1,5 @@
 import Goat.Gen.Tables
+import Goat.Gen.Facts
 /-!
 # Model of the peephole optimizer (compiler.go `doOptimize`, `optimize`)
 
